@@ -342,6 +342,31 @@ def _helper_literals(p, f):
     return out
 
 
+def _helper_id_arg(p, f, c):
+    """For a call accepted by `_helper_literals`: the call-site argument that the helper uses as the literal's `@id`
+    (when every returned literal's `@id` is one plain parameter of the helper), else None."""
+    qs = p.resolve_call(f, c, fanout=False)
+    if len(qs) != 1 or qs[0] not in p.functions:
+        return None
+    h = p.functions[qs[0]]
+    names = set()
+    for L in _file_literals(h):
+        e = _dict_get(L, "@id")
+        if not (isinstance(e, ast.Name) and e.id in h.params) or assign_nodes(h.cfg, e.id):
+            return None
+        names.add(e.id)
+    if len(names) != 1:
+        return None
+    name = names.pop()
+    for k in c.keywords:
+        if k.arg == name:
+            return k.value
+    if any(isinstance(a, ast.Starred) for a in c.args) or any(k.arg is None for k in c.keywords):
+        return None
+    i = h.params.index(name)
+    return c.args[i] if i < len(c.args) else None
+
+
 def _registrars(p):
     """methods storing self.files_map[...] = <the @id of the loop variable> for each element of a parameter: {name: param index}.
     The stored value is `part["@id"]`, a local copy of it, or the expression that was just assigned to `part["@id"]`
@@ -381,7 +406,7 @@ def r2(ctx):
             lid = lid[0]
             X = st.targets[0].id if isinstance(st, ast.Assign) and len(st.targets) == 1 and isinstance(st.targets[0], ast.Name) and st.value is L else None
             ids = []
-            e = _dict_get(L, "@id") if isinstance(L, ast.Dict) else None
+            e = _dict_get(L, "@id") if isinstance(L, ast.Dict) else _helper_id_arg(p, f, L)
             if e is not None:
                 ids.append(e)
             if X:
@@ -1109,6 +1134,14 @@ VARIANTS = [
     # R4 (seeded change C34-1 and siblings)
     V("_list_dir: one sha1 object for all the files of a directory (seeded C34-1)", FILE, _LD, _LD_LOOP + _HN + ")",
       "sha1_checksum = " + _HN + "\n        " + _LD_LOOP + "sha1_checksum)", "R4", control=True),
+    V("_list_dir: File literal built by a module-level helper (benign round 7)", FILE, _LD, "jsonld_object = {'@id': checksum, '@type': 'File', 'alternateName': os.path.basename(element_path), 'sha1': checksum}", "jsonld_object = _sf_file(element_path, checksum)", None,
+      append="def _sf_file(element_path, checksum):\n    return {'@id': checksum, '@type': 'File', 'alternateName': os.path.basename(element_path), 'sha1': checksum}\n"),
+    V("config File literal built by a module-level helper (benign)", FILE, _CA, "config_file = {'@id': config_checksum, '@type': 'File', 'alternateName': os.path.basename(config), 'encodingFormat': 'application/yaml', 'sha1': config_checksum}", "config_file = _sf_cfg(config, config_checksum)", None,
+      append="def _sf_cfg(config, cs):\n    return {'@id': cs, '@type': 'File', 'alternateName': os.path.basename(config), 'encodingFormat': 'application/yaml', 'sha1': cs}\n"),
+    V("config File literal built by a helper, files_map entry dropped", FILE, _CA, "config_file = {'@id': config_checksum, '@type': 'File', 'alternateName': os.path.basename(config), 'encodingFormat': 'application/yaml', 'sha1': config_checksum}\n        self.files_map[config] = config_checksum", "config_file = _sf_cfg(config, config_checksum)", "R2",
+      append="def _sf_cfg(config, cs):\n    return {'@id': cs, '@type': 'File', 'alternateName': os.path.basename(config), 'encodingFormat': 'application/yaml', 'sha1': cs}\n"),
+    V("config File literal built by a helper, files_map value is another name", FILE, _CA, "config_file = {'@id': config_checksum, '@type': 'File', 'alternateName': os.path.basename(config), 'encodingFormat': 'application/yaml', 'sha1': config_checksum}\n        self.files_map[config] = config_checksum", "config_file = _sf_cfg(config, config_checksum)\n        self.files_map[config] = os.path.basename(config)", "R2",
+      append="def _sf_cfg(config, cs):\n    return {'@id': cs, '@type': 'File', 'alternateName': os.path.basename(config), 'encodingFormat': 'application/yaml', 'sha1': cs}\n"),
     V("_list_dir: hash object kept on the instance", FILE, _LD, "_file_checksum(element_path, " + _HN + ")", "_file_checksum(element_path, self.sha1)", "R4"),
     V("_list_dir: hash object cached in a shared mapping", FILE, _LD, "_file_checksum(element_path, " + _HN + ")",
       "_file_checksum(element_path, jsonld_map.setdefault('#sha1', " + _HN + "))", "R4"),
